@@ -236,7 +236,8 @@ class h_OP_RESERVED:
         return vm.conditional_stack.false_count == 0
 
     def ensures_uncounted(vm, result):
-        return (vm.op_count == old(vm.op_count) - 1, vm.pc == old(vm.pc), vm.flags == old(vm.flags), vm.begin_code_hash == old(vm.begin_code_hash))
+        return (vm.op_count == old(vm.op_count) - 1, vm.pc == old(vm.pc), vm.flags == old(vm.flags), vm.begin_code_hash == old(vm.begin_code_hash),
+                vm.script == old(vm.script))
     raises = [(ScriptError, _fails, True)]
 
 
@@ -331,8 +332,7 @@ register("OP_CHECKSEQUENCEVERIFY", h_OP_CSV)
 
 
 # ------------------------------------------------------------------ every other table entry, classified mechanically
-TIER_B_ONLY = {"OP_CHECKSIG", "OP_CHECKSIGVERIFY", "OP_CHECKMULTISIG", "OP_CHECKMULTISIGVERIFY",
-               "OP_RIPEMD160", "OP_SHA1", "OP_SHA256", "OP_HASH160", "OP_HASH256"}
+TIER_B_ONLY = {"OP_CHECKSIG", "OP_CHECKSIGVERIFY", "OP_CHECKMULTISIG", "OP_CHECKMULTISIGVERIFY"}
 _done = {t[t.index('[') + 1:-1] for t in _REGISTERED}
 ALWAYS_FAIL, PUSH_NOOP, UNCLASSIFIED = [], [], []
 for _k in range(256):
@@ -360,6 +360,7 @@ def _register_by_value(k, cls):
     c = REG.contracts[target]
     c.sig = {p: VM}
     c.param_alias = {p: 'vm'}
+    REG.by_func.setdefault(id(f), c)
     _REGISTERED.append(target)
 
 
